@@ -468,7 +468,7 @@ pub fn run(ctx: &Ctx) -> EvidenceMeta {
         })
         .collect();
     ctx.enumerate("fixed", &fixed, test);
-    ctx.proptest("generated", ctx.n(30_000, 2_000_000), || case_strategy(2), test);
+    ctx.proptest("generated", ctx.n(60_000, 3_000_000), || case_strategy(2), test);
     EvidenceMeta {
         rule: "inputs: raw bytes in length classes {0..4, 5..19, 20..64, 65..2000, 65500..65600, 70000}, grammar-generated wire messages and \
                reference-serialised builder programs (2% with 65 400..65 532-byte bodies ending in integrity attributes) with 0..3 byte \
